@@ -158,7 +158,8 @@ class Expr:
         if isinstance(self.value, str):
             return self.value
         if isinstance(self.value, int):
-            return str(self.value)
+            # python refuses to convert huge ints to decimal strings (sys.get_int_max_str_digits) - print those in hex.
+            return str(self.value) if self.value.bit_length() <= 4096 else hex(self.value)
         raise FlipJumpExprException(f'bad expression: {self.value} (of type {type(self.value)})')
 
     def __repr__(self) -> str:
